@@ -142,7 +142,7 @@ struct Node : Base {
 	hfsm2::Prong select(const Control& c) { Probe& p = P(c); arec(p, 1); return (hfsm2::Prong)p.ansSelect(ID, W); }
 #ifdef HFSM2_ENABLE_UTILITY_THEORY
 	typename Base::Rank rank(const Control& c) { Probe& p = P(c); arec(p, 2); return (typename Base::Rank)p.ansRank(ID); }
-	typename Base::Utility utility(const Control& c) { Probe& p = P(c); arec(p, 3); return 0.125f * (float)p.ansUtil8(ID); }
+	typename Base::Utility utility(const Control& c) { Probe& p = P(c); arec(p, 3); return p.ansUtil(ID); }
 #endif
 
 	// ---- guards
@@ -161,7 +161,10 @@ struct Node : Base {
 		for (unsigned i = 0; i < pend.count(); ++i) { L.i(transId(pend[i])); L.i((int)pend[i].type); L.i((int)pend[i].destination); L.i(pend[i].origin == hfsm2::INVALID_STATE_ID ? -1 : (int)pend[i].origin); }
 		L.i((int)c.currentTransitions().count());
 		L.nl();
-		if (p.k.pendq && pend.count() == 1 && p.guardCalls == 1) {
+		// the pending-query vectors, once per round that has a single pending request (first guard of the round)
+		const long pendSig = pend.count() == 1 ? (long)transId(pend[0]) * 64 + (long)pend[0].type * 8 + (long)(pend[0].destination & 7) : -1;
+		const bool newRound = pendSig != p.lastPendSig; p.lastPendSig = pendSig;
+		if (p.k.pendq && pend.count() == 1 && newRound) {
 			std::string e, x, g;
 			for (int s = 0; s < p.sh->nStates; ++s) { e.push_back(c.isPendingEnter((hfsm2::StateID)s) ? '1' : '0'); x.push_back(c.isPendingExit((hfsm2::StateID)s) ? '1' : '0'); g.push_back(c.isPendingChange((hfsm2::StateID)s) ? '1' : '0'); }
 			L.tag('p'); L.s(e); L.s(x); L.s(g); L.nl();
